@@ -70,7 +70,7 @@ def step (specMode : Bool × Bool) (tid : String) (st : St) (ws : List String) :
       let fired := match op with
         | .tq s =>
           if specMode.2 then (match s.reads with | some l => st.wrote.contains l | none => false)
-          else partialEffect st.code s
+          else (!Generated.capiTxnStmtAtomic && partialEffect st.code s)
         | _ => false
       let wrote' := match op with
         | .tq s => (match s.writes with | some l => l :: st.wrote | none => st.wrote)
@@ -92,7 +92,7 @@ def init : St := ⟨State.init, State.init, false, []⟩
 
 /-- C13: the property's semantics = the code's reads, atomic statements -/
 def stream : Stream := { σ := St, init := init, step := step (true, false) "C13-explicit-txn-partial-effects" }
-/-- C24: the property's semantics = read-your-writes (failed statements as the code handles them) -/
-def streamRyw : Stream := { σ := St, init := init, step := step (false, true) "C24-txn-reads-committed-snapshot" }
+/-- C24: the property's semantics = read-your-writes (failed statements have no effect) -/
+def streamRyw : Stream := { σ := St, init := init, step := step (true, true) "C24-txn-reads-committed-snapshot" }
 
 end Nervus.Driver.CapiStream
